@@ -90,7 +90,15 @@ func Solve(query string, getValues []string, timeout time.Duration, needAll bool
 			err := cmd.Run()
 			el := time.Since(start).Seconds()
 			o := out.String()
-			first := strings.TrimSpace(strings.SplitN(strings.TrimSpace(o), "\n", 2)[0])
+			first := ""
+			for _, ln := range strings.Split(o, "\n") {
+				ln = strings.TrimSpace(ln)
+				if ln == "" || strings.HasPrefix(ln, "WARNING") || strings.HasPrefix(ln, "(warning") {
+					continue
+				}
+				first = ln
+				break
+			}
 			st := "error"
 			switch first {
 			case "unsat", "sat", "unknown":
@@ -135,7 +143,7 @@ func Solve(query string, getValues []string, timeout time.Duration, needAll bool
 
 func parseValues(out string) map[string]string {
 	vals := map[string]string{}
-	idx := strings.Index(out, "\n")
+	idx := strings.Index(out, "((")
 	if idx < 0 {
 		return vals
 	}
